@@ -661,15 +661,18 @@ func c08ClaimOrder(env *core.Env) map[string]interface{} {
 	type job struct {
 		perm  []int
 		equal bool // all created at the same instant
+		gap   time.Duration // distance between two creations when not equal (0 = the log's usual 1.5 s)
 		epics bool // odd tasks in E1, even tasks in E2; claim --epic E1
 	}
 	var jobs []job
 	for _, n := range []int{3, 4} {
 		for _, p := range permutations(n) {
 			for _, eq := range []bool{false, true} {
-				jobs = append(jobs, job{p, eq, false})
+				jobs = append(jobs, job{p, eq, 0, false})
 			}
-			jobs = append(jobs, job{p, false, true})
+			// created within one millisecond / one microsecond of each other (what plan and merged logs produce)
+			jobs = append(jobs, job{p, false, 7 * time.Microsecond, false}, job{p, false, time.Nanosecond, false})
+			jobs = append(jobs, job{p, false, 0, true}, job{p, false, 7 * time.Microsecond, true})
 		}
 	}
 	var claims int64
@@ -698,7 +701,12 @@ func c08ClaimOrder(env *core.Env) map[string]interface{} {
 				}
 			}
 			if !j.equal {
-				ts = l.tick()
+				if j.gap > 0 {
+					l.t = l.t.Add(j.gap)
+					ts = l.t.Format(time.RFC3339Nano)
+				} else {
+					ts = l.tick()
+				}
 			}
 			l.ev("new_task", ts, map[string]interface{}{"id": ids[k], "uuid": "u-" + ids[k], "epic_id": in, "state": "todo", "title": fmt.Sprintf("created #%d", k), "body": "", "created_at": ts})
 			if !j.epics || k%2 == 1 {
@@ -728,7 +736,7 @@ func c08ClaimOrder(env *core.Env) map[string]interface{} {
 			got = append(got, rep.ID)
 		}
 		if strings.Join(got, ",") != strings.Join(want, ",") {
-			desc := fmt.Sprintf("%d ready tasks, id rank by creation order %v, equal creation times=%v, per-epic=%v", n, j.perm, j.equal, j.epics)
+			desc := fmt.Sprintf("%d ready tasks, id rank by creation order %v, equal creation times=%v, gap=%v, per-epic=%v", n, j.perm, j.equal, j.gap, j.epics)
 			first := 0
 			for first < len(got) && first < len(want) && got[first] == want[first] {
 				first++
@@ -737,10 +745,10 @@ func c08ClaimOrder(env *core.Env) map[string]interface{} {
 			if first < len(want) {
 				wantID = `"id":"` + want[first] + `"`
 			}
-			report(env, fmt.Sprintf("C08 kind=claim-order-depends-on-id-order equal-times=%v per-epic=%v", j.equal, j.epics), fmt.Sprintf("%s: repeated claim hands out %v, oldest-first is %v", desc, got, want),
+			report(env, fmt.Sprintf("C08 kind=claim-order-depends-on-id-order equal-times=%v gap=%v per-epic=%v", j.equal, j.gap, j.epics), fmt.Sprintf("%s: repeated claim hands out %v, oldest-first is %v", desc, got, want),
 				mkTrace(st, desc, steps[:first+1], Assert{Kind: "out_lacks", Step: first + 1, Text: wantID}))
 		}
 	})
 	return map[string]interface{}{"stores": len(jobs), "claims": claims,
-		"rule": "3 and 4 ready tasks x every permutation of id rank vs creation order x {distinct creation times, one instant (tie-break by id), spread over two epics with claim --epic}; repeated claim until no_ready must hand out exactly the expected sequence"}
+		"rule": "3 and 4 ready tasks x every permutation of id rank vs creation order x {creation times 1.5 s apart, 7 us apart, 1 ns apart, one instant (tie-break by id), spread over two epics with claim --epic (1.5 s and 7 us apart)}; repeated claim until no_ready must hand out exactly the expected sequence"}
 }
